@@ -186,8 +186,10 @@ class Daemon(object):
         return self.world
 
     def _make(self):
+        # (the stderr of `a` is captured by a stream OBJECT: the replies of options / get then hold something that cannot
+        # be JSON-encoded - a request that is valid, carried out, and fails only when its reply is built)
         w = World(Chooser(), [WSpec('a', numprocesses=2, graceful_timeout=G, warmup_delay=0.0, max_retry=2,
-                                    behaviours=[slow(0.1)]),
+                                    behaviours=[slow(0.1)], stderr_stream={'stream': _Sink()}),
                               WSpec('b', numprocesses=1, graceful_timeout=G)])
         w.boot()
         w.run(until=lambda x: x.boot_future.done(), horizon=5)
@@ -253,6 +255,11 @@ def make_frames(case, w, n):
         msg = {'id': 'q%d' % n, 'command': case['command'], 'properties': props}
         return [cid, json.dumps(msg).encode()], msg
     raise ValueError(kind)
+
+
+class _Sink(object):
+    def __call__(self, data):
+        pass
 
 
 def judge(r, case, base, w, req, js, where_default):
